@@ -8,26 +8,26 @@ Theorem C13_executor_off_exact (preds : nat -> list nat) (debug : nat -> bool) n
   executor_graph preds debug nodes target exclude root false = SelOk g' ->
   exists g, make_subgraph preds nodes target exclude root = SelOk g /\
             forall x, In x g' <-> In x g /\ debug x = false.
-Proof. exact (executor_off_exact preds debug nodes target exclude root g'). Qed.
+Proof. exact (executor_off_exact preds debug (fun _ => false) nodes target exclude root g'). Qed.
 Print Assumptions C13_executor_off_exact.
 
 (* ... nor of a plain call (exactly the non-debug nodes run) ... *)
 Theorem C13_call_off (preds : nat -> list nat) (debug : nat -> bool) nodes x :
   In x (call_graph preds debug nodes false) <-> In x nodes /\ debug x = false.
-Proof. exact (debug_off_call preds debug nodes x). Qed.
+Proof. exact (debug_off_call preds debug (fun _ => false) nodes x). Qed.
 Print Assumptions C13_call_off.
 
 (* ... nor of setup(): only setup nodes (a node cannot be both) *)
 Theorem C13_setup_only_setup (preds : nat -> list nat) (setup : nat -> bool) nodes target exclude root g :
   setup_graph preds setup nodes target exclude root = SelOk g ->
   forall x, In x g -> setup x = true /\ In x nodes.
-Proof. exact (setup_graph_only_setup preds setup nodes target exclude root g). Qed.
+Proof. exact (setup_graph_only_setup preds (fun _ => false) setup nodes target exclude root g). Qed.
 Print Assumptions C13_setup_only_setup.
 
 (* flag on: a whole-DAG call executes every node *)
 Theorem C13_call_on_all (preds : nat -> list nat) (debug : nat -> bool) nodes x :
   In x (call_graph preds debug nodes true) <-> In x nodes.
-Proof. exact (debug_on_call_all preds debug nodes x). Qed.
+Proof. exact (debug_on_call_all preds debug (fun _ => false) nodes x). Qed.
 Print Assumptions C13_call_on_all.
 
 (* flag on, sub-graph run: the selection is kept, only debug nodes are added, and every added debug node
@@ -39,5 +39,5 @@ Theorem C13_executor_on_superset (preds : nat -> list nat) (debug : nat -> bool)
             (forall x, In x g' -> ~ In x g ->
                debug x = true /\ In x nodes /\
                forall p, In p (preds x) -> In p nodes -> In p g').
-Proof. exact (executor_on_superset preds debug nodes target exclude root g'). Qed.
+Proof. exact (executor_on_superset preds debug (fun _ => false) nodes target exclude root g'). Qed.
 Print Assumptions C13_executor_on_superset.
